@@ -120,50 +120,87 @@ func ruleCanRead(ctx *Ctx, rule string) {
 		}
 		return
 	}
-	var load, cas *ssa.Call
+	// one load per iteration; one compare-and-swap, or one per outcome
+	var load *ssa.Call
+	var cases []*ssa.Call
 	for _, b := range f.Blocks {
 		for _, in := range b.Instrs {
 			switch ssaq.StaticCalleeName(in) {
 			case "sync/atomic.LoadUint64":
 				load = in.(*ssa.Call)
 			case "sync/atomic.CompareAndSwapUint64":
-				cas = in.(*ssa.Call)
+				cases = append(cases, in.(*ssa.Call))
 			}
 		}
 	}
 	pos := q.Pos(f.Pos())
-	if load == nil || cas == nil {
+	if load == nil || len(cases) == 0 {
 		r.Violation(rule, "canRead | budget updated by compare-and-swap", pos, "canRead no longer reads the budget with atomic.LoadUint64 and publishes it with atomic.CompareAndSwapUint64: concurrent readers can lose charges")
 		return
 	}
-	// CAS(old = loaded value, new = phi(curr - sz, 0))
-	okOld := cas.Call.Args[1] == ssa.Value(load)
-	newS := ssaq.RenderValue(f, cas.Call.Args[2])
-	okNew := false
-	if phi, isPhi := cas.Call.Args[2].(*ssa.Phi); isPhi {
-		sub, zero := false, false
-		for _, e := range phi.Edges {
-			if bo, ok := e.(*ssa.BinOp); ok && bo.Op == token.SUB && bo.X == ssa.Value(load) {
-				sub = true
+	// every CAS: old = the loaded value, new = curr - sz or 0 (directly or
+	// through a phi); over all of them both outcomes occur
+	okOld, okNew, sub, zero := true, true, false, false
+	newS := ""
+	var leaves func(v ssa.Value, depth int)
+	leaves = func(v ssa.Value, depth int) {
+		if phi, isPhi := v.(*ssa.Phi); isPhi && depth < 3 {
+			for _, e := range phi.Edges {
+				leaves(e, depth+1)
 			}
-			if k, ok := ssaq.ConstInt(e); ok && k == 0 {
-				zero = true
-			}
+			return
 		}
-		okNew = sub && zero
+		if bo, ok := v.(*ssa.BinOp); ok && bo.Op == token.SUB && bo.X == ssa.Value(load) {
+			sub = true
+			return
+		}
+		if k, ok := ssaq.ConstInt(v); ok && k == 0 {
+			zero = true
+			return
+		}
+		okNew = false
 	}
-	if okOld && okNew {
+	for _, cas := range cases {
+		if cas.Call.Args[1] != ssa.Value(load) {
+			okOld = false
+		}
+		leaves(cas.Call.Args[2], 0)
+		newS += " " + ssaq.RenderValue(f, cas.Call.Args[2])
+	}
+	if okOld && okNew && sub && zero {
 		r.Ok(rule, "canRead | budget updated by compare-and-swap", pos, "CAS(&rlimit, curr, curr-sz | 0) with curr from atomic.LoadUint64")
 	} else {
-		r.Violation(rule, "canRead | budget updated by compare-and-swap", pos, fmt.Sprintf("the compare-and-swap does not replace the loaded budget by curr-sz or 0 (old is the loaded value: %v; new value: %s)", okOld, newS))
+		r.Violation(rule, "canRead | budget updated by compare-and-swap", pos, fmt.Sprintf("the compare-and-swap does not replace the loaded budget by curr-sz or 0 (old is the loaded value: %v; new value:%s)", okOld, newS))
 	}
-	// retry loop: the failed CAS edge leads back to the load
-	retry := false
-	for _, ref := range *cas.Referrers() {
-		if ifi, ok := ref.(*ssa.If); ok {
-			fb := ifi.Block().Succs[1]
-			if fb == load.Block() || fb.Dominates(load.Block()) || reaches(fb, load.Block()) {
-				retry = true
+	// retry loop: the failed edge of every CAS leads back to the load
+	retry := true
+	for _, cas := range cases {
+		one := false
+		for _, ref := range *cas.Referrers() {
+			if ifi, ok := ref.(*ssa.If); ok {
+				fb := ifi.Block().Succs[1]
+				if fb == load.Block() || fb.Dominates(load.Block()) || reaches(fb, load.Block()) {
+					one = true
+				}
+			}
+		}
+		retry = retry && one
+	}
+	// a success result is given only where the budget was sufficient
+	for _, b := range f.Blocks {
+		ret, ok := b.Instrs[len(b.Instrs)-1].(*ssa.Return)
+		if !ok || len(ret.Results) != 1 {
+			continue
+		}
+		if c, isConst := ret.Results[0].(*ssa.Const); isConst && c.Value != nil && c.Value.String() == "true" {
+			suff := false
+			for _, a := range ssaq.DomAtoms(ret) {
+				if strings.Contains(a, "<= LoadUint64(") {
+					suff = true
+				}
+			}
+			if !suff {
+				r.Violation(rule, "canRead | success only with sufficient budget", q.Pos(ret.Pos()), "canRead returns true on a path that is not dominated by sz <= curr: a read is admitted although the budget is exhausted")
 			}
 		}
 	}
